@@ -97,7 +97,7 @@ class Calls:
             self.sites_cache[key] = (ss, sx_sites(ss))
         return self.sites_cache[key]
 
-    def call(self, name, mt, spec_key, spec, args, valid, src, dst, extras=(), holding_ok=False, model=None):
+    def call(self, name, mt, spec_key, spec, args, valid, src, dst, extras=(), holding_ok=False, model=None, may_reject=False, check_dest=True):
         """run the move; queue the simulator request. src/dst: documented source / destination sites (valid calls)"""
         ctx = self.ctx
         case = {"move": name, "layout": list(spec_key), "args": repr(args), "documented_preconditions_hold": valid}
@@ -113,7 +113,7 @@ class Calls:
         if r.error is not None:
             ctx.count("rejected")
             ctx.seen((name, spec_key, repr(args)), False)
-            if valid:
+            if valid and not may_reject:
                 ctx.fail(dict(case, error=r.error), f"{name}{args!r} satisfies the documented preconditions but is rejected: {r.error[:160]}",
                          key=None)
             return
@@ -126,11 +126,31 @@ class Calls:
             return
         if valid:
             occ = list(dict.fromkeys(list(src) + [e for e in extras if e not in src and e not in dst]))
-            want_occ = sorted(set(dst) | {e for e in occ if e not in src})
+            want_occ = sorted(set(dst) | {e for e in occ if e not in src}) if check_dest else None
         else:
             occ, want_occ = None, None      # the occupancy is taken from the sites the paths pick at (see the driver request)
         self.lines.append((case, paths, occ, want_occ, holding_ok, sites_sx, ptxt))
         ctx.seen((name, spec_key, repr(args), repr(occ)), bool(paths))
+
+
+def call_seq(C, name, steps, spec_key, spec, src, dst):
+    """one transport split over several calls on one layout: all played paths are replayed in ONE simulator session"""
+    ctx = C.ctx
+    case = {"move": name, "layout": list(spec_key), "args": " ; ".join(repr(a) for _, a in steps), "documented_preconditions_hold": True}
+    paths = []
+    for mt, args in steps:
+        r = EV.run_with_events(mt, spec, args)
+        ctx.count("calls")
+        if r.error is not None:
+            ctx.fail(dict(case, error=r.error), f"{name}: a call of a split transport is rejected: {r.error[:160]}")
+            return
+        paths += paths_of(r.events)
+    ctx.count("split_transports")
+    sites, sites_sx = C.layout_sites(spec_key, spec)
+    ptxt = "(" + " ".join(EV.canon_pathobj(p) for p in paths) + ")"
+    occ = list(dict.fromkeys(src))
+    C.lines.append((case, paths, occ, sorted(set(dst)), False, sites_sx, ptxt))
+    ctx.seen((name, spec_key, case["args"]), True)
 
 
 def picked_sites(paths):
@@ -304,6 +324,17 @@ def gen_waypoints(C, rng, thorough):
                     # nothing is picked: nothing moves, whatever the occupancy
                     C.call("move_by_waypoints", waypoints.move_by_waypoints, key, spec, (ilist.IList(wps), pick, drop), valid, [], [],
                            extras=src, model=wp_model(wps, pick, drop))
+        # the same transport split over several calls (pick only / carry / drop only), replayed in one simulator session
+        wps = [first] + mids + [last]
+        if len(wps) >= 2:
+            src, dst = view_sites(zone, fx, fy), view_sites(zone, lx, ly)
+            mv = waypoints.move_by_waypoints
+            j = rng.randrange(0, len(wps))
+            call_seq(C, "move_by_waypoints (split in two)", [(mv, (ilist.IList(wps[:j + 1]), True, False)),
+                                                              (mv, (ilist.IList(wps[j:]), False, True))], key, spec, src, dst)
+            call_seq(C, "move_by_waypoints (pick / carry / drop)", [(mv, (ilist.IList([first]), True, False)),
+                                                                     (mv, (ilist.IList(wps), False, False)),
+                                                                     (mv, (ilist.IList([last]), False, True))], key, spec, src, dst)
     # empty list, unequal shapes
     C.call("move_by_waypoints", waypoints.move_by_waypoints, key, spec, (ilist.IList([]), True, True), True, [], [],
            model=wp_model([], True, True))
@@ -329,11 +360,15 @@ def gen_gemini(C, rng, thorough):
             subs = subsets if thorough else rng.sample(subsets, 6)
             for rs in subs:
                 ok_rows = all(0 <= r + off < rows for r in rs)
-                valid = off >= 0 and ok_rows
-                src = view_sites(GL, range(col * cs, (col + 1) * cs), rs) if valid else None
-                dst = view_sites(GR, range(col * cs, (col + 1) * cs), [r + off for r in rs]) if valid else None
-                C.call("vertical_shift", logical.vertical_shift, key, spec, (off, col, ilist.IList(rs)), valid, src, dst,
-                       model=f"vshift {G} {off} {col} {sx(list(rs))}")
+                # offset >= 0 is the documented precondition; a negative offset may be rejected, but if it is accepted the
+                # move has to be executable on an occupancy in which every other site of the destination block is occupied
+                valid = ok_rows
+                cols = range(col * cs, (col + 1) * cs)
+                src = view_sites(GL, cols, rs) if valid else None
+                dst = view_sites(GR, cols, [r + off for r in rs]) if valid else None
+                dense = [s_ for s_ in view_sites(GR, cols, range(rows)) if dst is not None and s_ not in dst] if rng.random() < 0.5 else []
+                C.call("vertical_shift", logical.vertical_shift, key, spec, (off, col, ilist.IList(rs)), valid, src, dst, extras=dense,
+                       model=f"vshift {G} {off} {col} {sx(list(rs))}", may_reject=off < 0, check_dest=off >= 0)
     for col in (-1, 2, 3):
         C.call("vertical_shift", logical.vertical_shift, key, spec, (1, col, ilist.IList([0])), False, None, None,
                model=f"vshift {G} 1 {col} (0)")
